@@ -222,6 +222,42 @@ def list_results_wrap(ev: ast.Module) -> bool:
     return ok
 
 
+ACCESSORS = ["getDate", "getDayOfMonth", "getDayOfWeek", "getDayOfYear", "getFullYear", "getMonth", "getHours",
+             "getMilliseconds", "getMinutes", "getSeconds"]
+DURATION_ACCESSORS = ["getHours", "getMilliseconds", "getMinutes", "getSeconds"]
+
+
+def method_returns_int(cls: ast.ClassDef, name: str) -> bool:
+    fn = class_methods(cls).get(name)
+    if not isinstance(fn, ast.FunctionDef):
+        return False
+    rets = all_returns(fn)
+    return bool(rets) and all(r.value is not None and short(callee(r.value)) == "IntType" for r in rets)
+
+
+def accessors_wrap(m: ast.Module, ev: ast.Module) -> bool:
+    """every accessor reachable from CEL hands back IntType(…): `function_getX` wraps its result, or it returns
+    `<first parameter>.getX(…)` and the celtypes methods of that name (TimestampType, and DurationType where it has
+    one) construct IntType on every return"""
+    ts, dur = find_class(m, "TimestampType"), find_class(m, "DurationType")
+    for name in ACCESSORS:
+        fn = find_func(ev.body, f"function_{name}")
+        if returns_built_by(fn, "IntType", passthrough_ok=False):
+            continue
+        params = [a.arg for a in fn.args.args]
+        rets = all_returns(fn)
+        delegated = bool(rets) and all(
+            r.value is not None and isinstance(uncast(r.value), ast.Call) and isinstance(uncast(r.value).func, ast.Attribute)
+            and uncast(r.value).func.attr == name and ast.unparse(uncast(r.value).func.value) == params[0] for r in rets)
+        if not delegated:
+            return False
+        if not method_returns_int(ts, name):
+            return False
+        if name in DURATION_ACCESSORS and not method_returns_int(dur, name):
+            return False
+    return True
+
+
 def new_returns_self(clsname: str, cls: ast.ClassDef) -> bool:
     ms = class_methods(cls)
     if "__new__" not in ms:
@@ -322,6 +358,7 @@ def gen_resultcls() -> str:
             for f in ("macro_all", "macro_exists", "macro_exists_one")),
         all(returns_built_by(find_func(m.body, f), "BoolType") for f in ("logical_and", "logical_or", "logical_not")),
         list_results_wrap(ev),
+        accessors_wrap(m, ev),
     ]
     out.append("def wrapSpec : WrapSpec := ⟨" + ", ".join(lean_bool(b) for b in spec) + "⟩\n")
     # base_functions: conversion and type names
